@@ -35,6 +35,10 @@ pub struct Case {
     pub chunk: u16,
     pub via_dir: bool,
     pub rng_seed: u64,
+    /// dict_size = usize::MAX ("no limit") resp. a value near it: the size is an upper bound on
+    /// what is written, not a request for that much memory
+    #[serde(default)]
+    pub unlimited: u8,
 }
 
 struct Chunked<'a> {
@@ -63,7 +67,13 @@ pub fn check(case: &Case, ctx: &mut CaseCtx) -> CaseResult {
     // the seed only makes a failure replayable
     fastrand::seed(case.rng_seed);
     let mut out: Vec<u8> = vec![];
-    let dict_size = case.dict_size as usize;
+    let dict_size = match case.unlimited % 4 {
+        0 => case.dict_size as usize,
+        1 => usize::MAX,
+        2 => isize::MAX as usize,
+        _ => (isize::MAX as usize) + 1 + case.dict_size as usize,
+    };
+    ctx.feat_if(case.unlimited % 4 != 0, "dict_size:near_usize_MAX_(no_limit)");
     if case.via_dir {
         let id = COUNTER.fetch_add(1, Ordering::Relaxed);
         let dir = std::path::PathBuf::from(VERIF_ROOT).join(format!("target/c20/tmp-{}-{id}", std::process::id()));
@@ -184,12 +194,13 @@ fn case_strategy(tier: Tier) -> impl Strategy<Value = Case> {
             }
             source.len /= 2;
         }
-        Case { source, estimate, dict_size, chunk, via_dir, rng_seed }
+        let unlimited = if rng_seed % 16 == 0 { 1 + (rng_seed >> 8) as u8 % 3 } else { 0 };
+        Case { source, estimate, dict_size, chunk, via_dir, rng_seed, unlimited }
     })
 }
 
 pub fn run(eng: &Engine) {
-    eng.set_rule("training sources (empty, < 16 B, < one segment, text-like, binary, constant, periodic; bounded to 40 KiB quick / 256 KiB thorough because the builder is quadratic) x source-size estimate {exact, 0, smaller, larger, x100, k << 32 (low 32 bits zero), sample = whole segments + a tail of 0..40 bytes} x dict_size {0, 1, 15, 16, 100, 1 KiB, 64 KiB, random, > source} x reader chunking, through create_raw_dict_from_source and create_raw_dict_from_dir (temporary directory with nested files); oracle: returns without panic within the deadline (an overrun is a violation of kind hang) and writes at most dict_size bytes; non-trivial = source >= 16 bytes with an estimate different from its length, or dict_size < source length; distinct by case hash; the builder's unseeded fastrand is seeded from the case so failures replay");
+    eng.set_rule("training sources (empty, < 16 B, < one segment, text-like, binary, constant, periodic; bounded to 40 KiB quick / 256 KiB thorough because the builder is quadratic) x source-size estimate {exact, 0, smaller, larger, x100, k << 32 (low 32 bits zero), sample = whole segments + a tail of 0..40 bytes} x dict_size {0, 1, 15, 16, 100, 1 KiB, 64 KiB, random, > source, usize::MAX and neighbours} x reader chunking, through create_raw_dict_from_source and create_raw_dict_from_dir (temporary directory with nested files); oracle: returns without panic within the deadline (an overrun is a violation of kind hang) and writes at most dict_size bytes; non-trivial = source >= 16 bytes with an estimate different from its length, or dict_size < source length; distinct by case hash; the builder's unseeded fastrand is seeded from the case so failures replay");
     eng.assume("sources are bounded to 256 KiB: the builder re-scores the whole sample for every 100 bytes read");
     let tier = eng.tier;
     let n = eng.tier.pick(2_000, 30_000);
